@@ -355,7 +355,12 @@ class PrintFlow:
             if isinstance(anc, (ast.FunctionDef, ast.AsyncFunctionDef)):
                 a = anc.args
                 if node.id in {x.arg for x in [*a.posonlyargs, *a.args, *a.kwonlyargs, a.vararg, a.kwarg] if x is not None}:
-                    return RAW, f"parameter '{node.id}' of the enclosing function {anc.name} is written into the code without printer._print"
+                    passed = self._passed_to_factory(anc, node.id)
+                    if passed is not None and passed and all(isinstance(x, ast.Constant) and isinstance(x.value, (str, int)) and not isinstance(x.value, bool) for x in passed):
+                        return PRINTED, ""  # a class factory that is only ever called with literal text for this parameter
+                    if passed is None or not passed:
+                        return UNKNOWN, f"parameter '{node.id}' of the enclosing function {anc.name}: its call sites cannot all be read"
+                    return RAW, f"parameter '{node.id}' of the enclosing function {anc.name} is written into the code without printer._print (a caller passes `{unparse(next(x for x in passed if not isinstance(x, ast.Constant)))[:40]}`)"
                 if any(isinstance(n, ast.Name) and n.id == node.id and isinstance(n.ctx, ast.Store) for n in ast.walk(anc)):
                     return UNKNOWN, f"'{node.id}' is a local of the enclosing function {anc.name}"
         top = fn.module.toplevel.get(node.id)
@@ -371,6 +376,39 @@ class PrintFlow:
         if target and target.split(".")[0] == "string":
             return PRINTED, ""
         return UNKNOWN, f"no definition reaches '{node.id}'"
+
+    def _passed_to_factory(self, factory_node: ast.AST, param: str) -> list[ast.AST] | None:
+        """The expressions all call sites of an enclosing (module-level) factory function pass for ``param``; None if
+        the factory is not a module-level function of the package, is referenced other than by a direct call, or a
+        call cannot be bound (starred arguments)."""
+        info = next((f for f in self.tree.funcs.values() if f.node is factory_node), None)
+        if info is None or info.outer is not None or info.cls is not None:
+            return None
+        a = factory_node.args
+        names = [x.arg for x in [*a.posonlyargs, *a.args]]
+        defaults = dict(zip(reversed(names), reversed(a.defaults)))
+        passed: list[ast.AST] = []
+        for mod in self.tree.modules.values():
+            called = set()
+            for n in ast.walk(mod.tree):
+                if isinstance(n, ast.Call) and self.tree.resolve(mod, n.func, None) == info.qual:
+                    called.add(id(n.func))
+                    if any(isinstance(x, ast.Starred) for x in n.args) or any(k.arg is None for k in n.keywords):
+                        return None
+                    kw = {k.arg: k.value for k in n.keywords}
+                    if param in kw:
+                        passed.append(kw[param])
+                    elif param in names and names.index(param) < len(n.args):
+                        passed.append(n.args[names.index(param)])
+                    elif param in defaults:
+                        passed.append(defaults[param])
+                    else:
+                        return None
+            for n in ast.walk(mod.tree):
+                if isinstance(n, (ast.Name, ast.Attribute)) and isinstance(getattr(n, "ctx", None), ast.Load) and id(n) not in called \
+                        and not isinstance(getattr(n, "_parent", None), ast.Attribute) and self.tree.resolve(mod, n, None) == info.qual:
+                    return None  # the factory itself is handed around: not all calls are visible
+        return passed
 
     def _def(self, d, scope, depth: int):  # noqa: C901, PLR0912
         fn, binding, rd = scope
